@@ -86,10 +86,10 @@ def search(ck, binpath, n, maxlen, sigs):
     if rc != 0:
         ck.tie_broken("harness c22 search failed", err[-2000:])
         return
-    for l in out.splitlines():
-        if not l.strip():
-            continue
-        v = json.loads(l)
+    lines = [json.loads(l) for l in out.splitlines() if l.strip()]
+    # report the smallest failing text first (the generator's fixed corpus and short texts come first anyway)
+    lines.sort(key=lambda v: len(v.get("text", [])) if "summary" not in v else -1)
+    for v in lines:
         if "summary" in v:
             ck.cov["distribution"]["search"] = v["summary"]
             ck.add_measured(v["summary"]["texts"], v["summary"]["distinct_nontrivial"])
